@@ -114,6 +114,45 @@ CLAIMED.update({
         design="8/C18"),
 })
 
+STORENOTE = COMMON_NOTE + ("Modelled, not verified: testing/synctest virtual time, the scripted StoreClient (assumed to return when its context ends), encoding/json for the cache "
+                            "document, singleflight, sync.Mutex (critical sections are atomic steps). The store's state is observed through a read-only hook compiled only with -tags verif.")
+CLAIMED.update({
+    "C10": dict(
+        text=("Theorems about initLoop (initializeActive over a virtual ms clock, oracles = map iteration order and every service answer): success implies no name of the active "
+              "set is missing, and every declared name is in it; only missing names are ever requested (no re-fetch, none for cached names); with a complete cache: success, "
+              "zero requests, zero time; the wait between rounds is a power of two between 1 and 4096 ms for every round; with a deadline the loop returns by the deadline for "
+              "any number of rounds; a file-backed client makes exactly one round; misconfiguration is refused. Base/cap constants and the FileClient case are extracted from "
+              "store.go. Tie: NewStore under synctest with scripted failure/hang scripts, deadlines, caches and both client kinds; request timestamps, result, elapsed virtual "
+              "time and resulting state compared with the model."),
+        note=STORENOTE, technique="Lean 4 theorems (induction over rounds/fuel; power-of-two invariant for the back-off) + extracted constants + virtual-time differential runs",
+        design="8/C10"),
+    "C11": dict(
+        text=("Theorems about poll (snapshot, one conditional fetch per unexpired name in any order with the service free to change between requests, apply-all-or-nothing): on "
+              "success every requested name has the answered version (and exactly the answered bytes when the version number changed), 'not changed' keeps the confirmed value; on "
+              "any request failure nothing changes; every value held afterwards was held before or is an answer of this poll for that very name; with the repaired snapshot rule "
+              "(extracted from the source) a pinned name is always polled, and the original rule is proved to never refresh a stale pinned secret (D5); jitter stays within "
+              "interval/10 in Go's truncating arithmetic for every interval and draw. Coalescing relies on singleflight (trusted, sampled). Tie: polls with per-request failures "
+              "and mid-poll service changes / handles / reads, explicit and background, against the scripted service."),
+        note=STORENOTE, technique="Lean 4 theorems (fold over distinct-name updates; omega for the jitter bound) + extracted snapshot-rule fact + virtual-time differential runs",
+        design="8/C11"),
+    "C13": dict(
+        text=("Theorems: a flush is one document of the whole active set; loading that document gives exactly the same names, versions, bytes and access stamps (undeclared), so a "
+              "restart with a dead service serves the same bytes; lookup and any non-empty apply flush; a malformed/absent cache loads as empty and every declared name is then "
+              "stubbed for fetching; the file-backed client's table accepts every non-empty positive-version entry unchanged; FileCache.Write is the atomic write protocol of C04 with "
+              "mode 0600 (fact + Fs theorems). Tie: recording cache (every written document decoded and compared), restarts from the store's own cache with live/dead service, 16 "
+              "malformed cache shapes + failing Read/Write, FileClient on the same documents, and FileCache.Write in a child under strace with every call failed / killed."),
+        note=STORENOTE + " Kernel rename atomicity trusted (as C04).",
+        technique="Lean 4 theorems (extensional map lemmas for the codec round-trip; Fs prefix induction) + malformed-cache stream and strace fault enumeration as correspondence",
+        design="8/C13"),
+    "C19": dict(
+        text=("Theorems: the expiry predicate is exactly (undeclared, age configured, last access longer ago than the age, stamp 0 = never); a name leaves the active set only through "
+              "a poll's apply step, only if the snapshot marked it expired by that predicate and no handle exists at the apply (fold lemma over all update lists); declared / "
+              "recently read / age<=0 entries are never marked; a pinned name survives every apply; a read stamps the access time and the next document carries it; a store loaded "
+              "from its document keeps the stamps (C13 round-trip), so the rule continues across restarts. Tie: histories with clock advances past the age, ages {0,-5,10,3600}, "
+              "stamps {0, far past, now, future}, handles taken mid-poll."),
+        note=STORENOTE, technique="Lean 4 theorems (fold invariant over apply steps) + virtual-clock differential runs", design="8/C19"),
+})
+
 NOT_YET = {}
 
 def manifest():
